@@ -56,6 +56,22 @@ from pyttb.pyttb_utils import (
 )
 
 
+def _without_zero_values(
+    subs: np.ndarray, vals: np.ndarray, shape: Tuple[int, ...]
+) -> sptensor:
+    """Sparse tensor of the computed entries whose value is not zero.
+
+    A product can be exactly zero (zero factor, underflow). Storing such an entry
+    would make it count as a nonzero for nnz, ==, != and the logical operators.
+    """
+    keep = (np.asarray(vals) != 0).reshape(-1)
+    if keep.all():
+        return ttb.sptensor(subs, vals, shape)
+    if not keep.any():
+        return ttb.sptensor(shape=shape)
+    return ttb.sptensor(subs[keep, :], vals[keep], shape)
+
+
 class sptensor:
     """
     SPTENSOR Class for sparse tensors.
@@ -1762,7 +1778,7 @@ class sptensor:
                 assert False, "Size mismatch in scale"
             if self.nnz == 0:
                 return self.copy()
-            return ttb.sptensor(
+            return _without_zero_values(
                 self.subs,
                 self.vals * np.atleast_1d(factor[self.subs[:, dims]])[:, None],
                 self.shape,
@@ -1773,7 +1789,7 @@ class sptensor:
                 assert False, "Size mismatch in scale"
             if self.nnz == 0:
                 return self.copy()
-            return ttb.sptensor(
+            return _without_zero_values(
                 self.subs, self.vals * factor.extract(self.subs[:, dims]), self.shape
             )
         if isinstance(factor, np.ndarray):
@@ -1782,7 +1798,7 @@ class sptensor:
                 assert False, "Size mismatch in scale"
             if self.nnz == 0:
                 return self.copy()
-            return ttb.sptensor(
+            return _without_zero_values(
                 self.subs,
                 self.vals * factor[self.subs[:, dims].transpose()[0]][:, None],
                 self.shape,
@@ -3035,7 +3051,9 @@ class sptensor:
         empty sparse tensor of shape (2, 2) with order F
         """
         if isinstance(other, (float, int, np.number)):
-            return ttb.sptensor(self.subs, self.vals * other, self.shape)
+            if self.nnz == 0:
+                return self.copy()
+            return _without_zero_values(self.subs, self.vals * other, self.shape)
 
         if (
             isinstance(other, (ttb.sptensor, ttb.tensor, ttb.ktensor))
@@ -3048,7 +3066,9 @@ class sptensor:
                 return ttb.sptensor(shape=self.shape)
             idxSelf = tt_intersect_rows(self.subs, other.subs)
             # Look values up by subscript, stored orders may differ
-            return ttb.sptensor(
+            if idxSelf.size == 0:
+                return ttb.sptensor(shape=self.shape)
+            return _without_zero_values(
                 self.subs[idxSelf],
                 self.vals[idxSelf] * other.extract(self.subs[idxSelf]),
                 self.shape,
@@ -3059,7 +3079,7 @@ class sptensor:
             csubs = self.subs
             # A single subscript is returned as a scalar
             cvals = self.vals * np.atleast_1d(other[csubs])[:, None]
-            return ttb.sptensor(csubs, cvals, self.shape)
+            return _without_zero_values(csubs, cvals, self.shape)
         if isinstance(other, ttb.ktensor):
             csubs = self.subs
             cvals = np.zeros(self.vals.shape)
@@ -3073,7 +3093,7 @@ class sptensor:
                     v = other.factor_matrices[n][:, r][:, None]
                     tvals = tvals * v[csubs[:, n]]
                 cvals += tvals
-            return ttb.sptensor(csubs, cvals, self.shape)
+            return _without_zero_values(csubs, cvals, self.shape)
         assert False, "Sptensor cannot be multiplied by that type of object"
 
     def __rmul__(self, other):
